@@ -1,5 +1,6 @@
 (* M2, prover E2 — basic frame lemmas for the reservation invariants (C07 / C11 / C10-once).
-   Threads are read through [gth], which forgets [t_granted] (the only field [recheck] touches). *)
+   Threads are read through [gth], which forgets [t_granted] (the only field [recheck] touches) and
+   [t_cancelled] (the only field [cancel] touches). *)
 From FL Require Import Engine.Model Engine.Spec.
 From Coq Require Import Lia Permutation.
 Open Scope nat_scope.
@@ -18,7 +19,8 @@ Qed.
 
 Definition ug (th : thread) : thread :=
   {| t_req := t_req th; t_pc := t_pc th; t_postings := t_postings th; t_unb := t_unb th; t_view := t_view th;
-     t_entry := t_entry th; t_txid := t_txid th; t_granted := false; t_resp := t_resp th; t_gen := t_gen th |}.
+     t_entry := t_entry th; t_txid := t_txid th; t_granted := false; t_resp := t_resp th; t_gen := t_gen th;
+     t_cancelled := false |}.
 Definition gtl (l : list (tid * thread)) (t : tid) : option thread := option_map ug (get_thread l t).
 Definition gth (s : state) (t : tid) : option thread := gtl (threads s) t.
 
@@ -61,6 +63,16 @@ Lemma e2_unlock_uid : forall t u, u_uid (unlock t u) = u_uid u. Proof. e2_unl. Q
 Lemma e2_unlock_last : forall t u, u_last (unlock t u) = u_last u. Proof. e2_unl. Qed.
 Lemma e2_unlock_lasttx : forall t u, u_lasttx (unlock t u) = u_lasttx u. Proof. e2_unl. Qed.
 Lemma e2_unlock_published : forall t u, u_published (unlock t u) = u_published u. Proof. e2_unl. Qed.
+
+(* ---- dequeue touches only the queue; cancel touches only [t_cancelled] --------------------------------- *)
+Lemma e2_dequeue_gtl : forall t u t', gtl (u_threads (dequeue t u)) t' = gtl (u_threads u) t'. Proof. reflexivity. Qed.
+Lemma e2_ug_with_cancelled : forall th, ug (with_cancelled th) = ug th. Proof. reflexivity. Qed.
+Lemma e2_gtl_set_same : forall l t th th', get_thread l t = Some th -> ug th' = ug th ->
+  forall t', gtl (set_thread l t th') t' = gtl l t'.
+Proof.
+  intros l t th th' H E t'. rewrite e2_gtl_set. destruct (Nat.eqb t' t) eqn:Q; [|reflexivity].
+  apply Nat.eqb_eq in Q. subst t'. unfold gtl. rewrite H. cbn. rewrite E. reflexivity.
+Qed.
 
 (* ---- membership / removal ---------------------------------------------------------------------------- *)
 Lemma e2_mem_N_In : forall x l, mem_N x l = true <-> In x l.
